@@ -21,6 +21,7 @@ from concurrent.futures import ProcessPoolExecutor
 from . import model
 from .model import Repo, AnchorMissing
 from .report import Ctx, AnalysisError, load_known, EVIDENCE_DIR
+from . import report
 
 
 def _evaluate(args):
@@ -55,7 +56,7 @@ def _evaluate(args):
         if repo.parse_errors:
             return name, kind, "error", f"variant does not parse: {repo.parse_errors}"
         ctx = Ctx(prop, "thorough", repo, 0)
-        mod.check(ctx)
+        report.full_check(mod, ctx)
     except (AnchorMissing, AnalysisError) as e:
         return name, kind, "analysis-error", str(e)
     except Exception as e:  # pragma: no cover
@@ -97,7 +98,7 @@ def run_neutral(prop: str, seed: int = 0):
     mod = importlib.import_module("pdv.props." + prop.lower())
     base = Repo()
     ctx0 = Ctx(prop, "thorough", base, seed)
-    mod.check(ctx0)
+    report.full_check(mod, ctx0)
     consulted = sorted(ctx0.consulted)
     known = {k["key"] for k in load_known().get("known", []) if k["property"] == prop}
     out = []
@@ -116,7 +117,7 @@ def run_neutral(prop: str, seed: int = 0):
         try:
             repo = Repo(overlay=overlay)
             ctx = Ctx(prop, "thorough", repo, seed)
-            mod.check(ctx)
+            report.full_check(mod, ctx)
             new_v = [x for x in ctx.violations if x.key not in known]
             if new_v:
                 out.append((f"neutral:{kind}", "neutral", "FALSE-ALARM", "; ".join(f"{x.rule}@{x.where}" for x in new_v)[:300]))
